@@ -143,7 +143,7 @@ def chunk_cases(rng, big):
             cases.append((m, f, ty, w, w, cnt))
     # long = 4 files: I8 resized inside the chunk loop (file element 4 bytes, memory element 8 bytes)
     for m, f in (("LB", "BL"), ("LB", "LL"), ("BB", "LL"), ("BB", "BL")):
-        for cnt in ([1, 7, 12499, 12500, 12501, 25001] if big else [3, 12500, 12501]):
+        for cnt in ([1, 7, 24999, 25000, 25001, 50001] if big else [3, 25000, 25001]):
             cases.append((m, f, "I8", 4, 8, cnt))
         cases.append((m, f, "U8", 4, 8, 5))
     return cases
@@ -413,7 +413,7 @@ def run(ck):
                             break
                 ck.violation({"level": "chunk", "machine_format": small[0], "file_format": small[1], "type": ty, "file_size": fsz,
                               "mem_size": msz, "count": small[5], "why": why, "outcomes": list(ocs),
-                              "script": [s if len(s) < 4000 else s[:200] + "...(%d hex chars; data = seeded)" % len(s) for s in script],
+                              "script": script,
                               "observed": [l[:200] for l in ilines], "oracle": "file image = per-element packing; read(write(x)) = x",
                               "replay_hint": "printf '%s\\n' <script lines> | .build/h/c19_unit /tmp/s.bin"})
                 break
